@@ -126,6 +126,61 @@ pub fn run(args: &Args) {
                 Err(e) => o.div(format!("translate:panic:{}", panic_site(e)), format!("formula {:?} dc={} dr={}: {}", text, dc, dr, e)),
             }
         }
+        // path 4: the same translation applied to cells of a shared formula loaded from a file (master and children)
+        if !wide && !feats.contains("external-ref") && rng.chance(1, 6) {
+            o.count("path.shared-formula-from-file", 1);
+            let (bc, br, bw, bh) = (40u32, rng.range(1, 30), rng.range(1, 3), rng.range(2, 4));
+            let loaded = guard(|| -> Result<Spreadsheet, String> {
+                let mut book = crate::gen::new_book(&sheets);
+                for dr in 0..bh {
+                    for dc in 0..bw {
+                        book.get_sheet_mut(&0).unwrap().get_cell_mut((bc + dc, br + dr)).set_formula(render(&translate_ast(&ast, dc as i64, dr as i64)));
+                    }
+                }
+                let bytes = crate::dump::save(&book, false)?;
+                crate::dump::load(&crate::c08::to_shared_block(&bytes, 0, bc, br, bw, bh)?)
+            });
+            match loaded {
+                Ok(Ok(book)) => {
+                    for dr in 0..bh {
+                        for dc in 0..bw {
+                            let member = translate_ast(&ast, dc as i64, dr as i64);
+                            let (mc, mr) = (rng.irange(-3, 3), rng.irange(-3, 3));
+                            let exp_ast = translate_ast(&member, mc, mr);
+                            let (exp, alt) = (render(&exp_ast), render(&crate::c08::strip_referr_prefix(&exp_ast)));
+                            let (c, r) = (bc + dc, br + dr);
+                            let target = ((c as i64 + mc).max(1) as u32, (r as i64 + mr).max(1) as u32);
+                            if (target.0 as i64, target.1 as i64) != (c as i64 + mc, r as i64 + mr) {
+                                continue;
+                            }
+                            o.observations += 1;
+                            let got = guard(|| {
+                                let mut cell = book.get_sheet(&0).unwrap().get_cell((c, r)).unwrap().clone();
+                                let before = cell.get_formula().to_string();
+                                cell.set_coordinate(target);
+                                (before, cell.get_formula().to_string())
+                            });
+                            match got {
+                                Ok((before, _)) if norm(&before) != norm(&render(&member)) => {
+                                    o.inconclusive = Some(format!("shared block does not load as built: {:?} vs {:?}", before, render(&member)));
+                                    return o;
+                                }
+                                Ok((_, g)) if norm(&g) == norm(&exp) || norm(&g) == norm(&alt) => {}
+                                Ok((before, g)) => {
+                                    o.div("translate:shared-formula-member", format!("{} of a loaded shared formula {:?} moved by (dc={}, dr={}): expected {:?} got {:?}", if dc == 0 && dr == 0 { "master" } else { "child" }, before, mc, mr, exp, g));
+                                    return o;
+                                }
+                                Err(e) => {
+                                    o.div(format!("translate:panic:{}", panic_site(&e)), format!("shared formula member {:?}: {}", render(&member), e));
+                                    return o;
+                                }
+                            }
+                        }
+                    }
+                }
+                Ok(Err(e)) | Err(e) => o.inconclusive = Some(format!("cannot build the shared-formula file: {}", e)),
+            }
+        }
         o
     });
     finish(args, agg, vec![]);
